@@ -23,7 +23,8 @@ Record inv2 (s : state) : Prop := {
   j_rgen : forall k, r_gen (rph s) = Some k -> k < length (gens s);
   j_fngen : forall i f, nth_error (fns s) i = Some f -> n_gen f < length (gens s);
   j_past : forall k g, nth_error (gens s) k = Some g -> cur_gen (gph s) = Some k \/ gen_past s k g;
-  j_late : forall i f, nth_error (fns s) i = Some f -> n_acc f = false -> gen_done s (n_gen f) = true }.
+  j_late : forall i f, nth_error (fns s) i = Some f -> n_acc f = false -> gen_done s (n_gen f) = true;
+  j_cw : forall k w, gph s = GCloseWait k w -> gen_done s k = true }.
 
 Lemma inv2_init : forall c, inv2 (init c).
 Proof.
@@ -44,26 +45,200 @@ Proof. intros. rewrite forallb_app1, H. unfold pastp. rewrite H0. reflexivity. Q
 Lemma nexit_false : forall f, n_ph f <> NExit -> nexit f = false.
 Proof. intros. unfold nexit. destruct (n_ph f); congruence. Qed.
 
+Lemma nth_app_cases : forall A (l : list A) x i y,
+  nth_error (l ++ [x]) i = Some y -> nth_error l i = Some y \/ (i = length l /\ y = x).
+Proof.
+  intros. destruct (Nat.lt_ge_cases i (length l)).
+  - rewrite nth_error_app1 in H by auto. auto.
+  - rewrite nth_error_app2 in H by auto. destruct (i - length l) as [|[|]] eqn:E; cbn in H; try discriminate.
+    inversion H; subst. right. split; auto. lia.
+Qed.
+
+Lemma inv2_ext : forall s s', inv2 s -> cfg s' = cfg s -> gph s' = gph s -> rph s' = rph s -> gens s' = gens s ->
+  fns s' = fns s -> rdone s' = rdone s -> cgdone s' = cgdone s -> inv2 s'.
+Proof.
+  intros s s' [J0 J1 J2 J3 J4 J5 J6 J7 J8 J9] E1 E2 E3 E4 E5 E6 E7.
+  split; unfold gen_past, gen_done in *; rewrite ?E1, ?E2, ?E3, ?E4, ?E5, ?E6, ?E7; auto.
+Qed.
+
+(* a function that has not exited changes phase (generation and accounting bit are fixed) *)
+Lemma inv2_fn_upd : forall s s' i f kd d ph, inv2 s -> nth_error (fns s) i = Some f -> nexit f = false ->
+  cfg s' = cfg s -> gph s' = gph s -> rph s' = rph s -> gens s' = gens s -> rdone s' = rdone s -> cgdone s' = cgdone s ->
+  fns s' = upd i (mkFn (n_gen f) kd (n_acc f) d ph) (fns s) -> inv2 s'.
+Proof.
+  intros s s' i f kd d ph [J0 J1 J2 J3 J4 J5 J6 J7 J8 J9] Hf Hx E1 E2 E3 E4 E6 E7 E5.
+  split; unfold gen_past, gen_done in *; rewrite ?E1, ?E2, ?E3, ?E4, ?E5, ?E6, ?E7; auto.
+  - intros G. destruct (J0 G) as (A & B & C & D & E). rewrite D in Hf. destruct i; discriminate.
+  - intros j g H. rewrite nth_upd in H. destruct (Nat.eqb_spec i j).
+    + subst. rewrite Hf in H. inversion H; subst. cbn. eauto.
+    + eauto.
+  - intros k g H. destruct (J7 k g H) as [|(A & B & C)]; auto. right. split; auto.
+    apply past_setfn; auto.
+  - intros j g H Ha. rewrite nth_upd in H. destruct (Nat.eqb_spec i j).
+    + subst. rewrite Hf in H. inversion H; subst. cbn in *. eauto.
+    + eauto.
+Qed.
+
+(* generation k changes monotonically: done stays set, a closed connection stays closed *)
+Lemma inv2_gen_upd : forall s s' k g g', inv2 s -> nth_error (gens s) k = Some g ->
+  (g_done g = true -> g_done g' = true) -> (g_conn g = false -> g_conn g' = false) ->
+  cfg s' = cfg s -> gph s' = gph s -> rph s' = rph s -> fns s' = fns s -> rdone s' = rdone s -> cgdone s' = cgdone s ->
+  gens s' = upd k g' (gens s) -> inv2 s'.
+Proof.
+  intros s s' k g g' [J0 J1 J2 J3 J4 J5 J6 J7 J8 J9] Hg M1 M2 E1 E2 E3 E5 E6 E7 E4.
+  split; unfold gen_past, gen_done in *; rewrite ?E1, ?E2, ?E3, ?E4, ?E5, ?E6, ?E7, ?upd_length; auto.
+  - intros G. destruct (J0 G) as (A & B & C & D & E). rewrite C in Hg. destruct k; discriminate.
+  - intros j g0 H. rewrite nth_upd in H. destruct (Nat.eqb_spec k j).
+    + subst. rewrite Hg in H. inversion H; subst. destruct (J7 _ _ Hg) as [|(A & B & C)]; auto.
+    + eauto.
+  - intros j f H Ha. rewrite nth_upd. specialize (J8 j f H Ha). destruct (Nat.eqb_spec k (n_gen f)).
+    + rewrite <- e, Hg in *. auto.
+    + exact J8.
+  - intros j w H. rewrite nth_upd. specialize (J9 j w H). destruct (Nat.eqb_spec k j).
+    + subst. rewrite Hg in *. auto.
+    + exact J9.
+Qed.
+
+(* the cg goroutine moves on, the current generation (if any) stays current *)
+Lemma inv2_gph : forall s g', inv2 s -> gph s <> GNone -> gph s <> GExited -> cur_gen g' = cur_gen (gph s) ->
+  g' <> GNone -> (forall k w, g' = GCloseWait k w -> gen_done s k = true) -> inv2 (set_gph g' s).
+Proof.
+  intros s g' [J0 J1 J2 J3 J4 J5 J6 J7 J8 J9] N1 N2 Hc N3 N4.
+  split; unfold gen_past, gen_done in *; cbn; auto.
+  - intros G. destruct (J0 G) as (A & _). congruence.
+  - intros G. specialize (J3 G). congruence.
+  - rewrite Hc. auto.
+  - rewrite Hc. auto.
+Qed.
+
+(* the current generation is over: all its accounted functions exited, its connection closed *)
+Lemma inv2_leave_cur : forall s k g g', inv2 s -> cur_gen (gph s) = Some k -> nth_error (gens s) k = Some g ->
+  gen_past s k g -> cur_gen g' = None -> g' <> GNone -> inv2 (set_gph g' s).
+Proof.
+  intros s k g g' [J0 J1 J2 J3 J4 J5 J6 J7 J8 J9] Hk Hg Hp Hc N3.
+  assert (N1 : gph s <> GNone /\ gph s <> GExited) by (destruct (gph s); cbn in Hk; try discriminate; split; discriminate).
+  split; unfold gen_past, gen_done in *; cbn; auto.
+  - intros G. destruct (J0 G) as (A & _). tauto.
+  - intros G. specialize (J3 G). tauto.
+  - rewrite Hc. discriminate.
+  - intros j g0 H. destruct (J7 j g0 H) as [A|A]; auto. rewrite Hk in A. inversion A; subst. rewrite Hg in H. inversion H; subst. auto.
+  - intros j w H. rewrite H in Hc. discriminate.
+Qed.
+
+Lemma inv2_start_fn : forall s k kd r', inv2 s -> r_gen (rph s) = Some k ->
+  (r_gen r' = None \/ r_gen r' = Some k) -> r_closing r' = false -> inv2 (set_rph r' (start_fn k kd s)).
+Proof.
+  intros s k kd r' [J0 J1 J2 J3 J4 J5 J6 J7 J8 J9] Hk Hr Hc.
+  assert (Hrp : rph s <> RNone /\ rph s <> RExited) by (destruct (rph s); cbn in Hk; try discriminate; split; discriminate).
+  unfold start_fn. split; unfold gen_past, gen_done in *; cbn.
+  - intros G. destruct (J0 G) as (A & B & C & D & E). tauto.
+  - intros G. specialize (J1 G). tauto.
+  - rewrite Hc. discriminate.
+  - intros G. destruct r'; cbn in *; discriminate.
+  - auto.
+  - intros j G. destruct Hr as [Hr|Hr]; rewrite Hr in G; [discriminate|]. inversion G; subst. auto.
+  - intros i f H. apply nth_app_cases in H as [H|[_ H]]; [eauto|]. subst. cbn. auto.
+  - intros j g H. destruct (J7 j g H) as [|(A & B & C)]; auto. right. split; auto.
+    apply past_app; auto. unfold acc_of. cbn. destruct (Nat.eqb_spec k j); auto. subst. unfold gen_done. rewrite H, C. reflexivity.
+  - intros i f H Ha. apply nth_app_cases in H as [H|[_ H]]; [eauto|]. subst. cbn in *.
+    apply negb_false_iff in Ha. exact Ha.
+  - auto.
+Qed.
+
+Lemma inv2_after_close : forall s k w g, inv2 s -> cur_gen (gph s) = Some k -> nth_error (gens s) k = Some g ->
+  g_done g = true -> acc_exited k s = true -> inv2 (after_close k w s).
+Proof.
+  intros s k w g I Hk Hg Hd Ha. unfold after_close, close_conn. rewrite Hg.
+  set (s2 := set_gens (upd k {| g_mid := g_mid g; g_done := g_done g; g_conn := false |} (gens s)) s).
+  assert (I2 : inv2 s2).
+  { eapply inv2_gen_upd; try exact I; try exact Hg; try (cbn; reflexivity); cbn; auto. }
+  assert (Hg2 : nth_error (gens s2) k = Some {| g_mid := g_mid g; g_done := g_done g; g_conn := false |})
+    by (cbn; eapply nth_upd_eq; eauto).
+  assert (P2 : gen_past s2 k {| g_mid := g_mid g; g_done := g_done g; g_conn := false |})
+    by (split; [exact Ha|split; cbn; auto]).
+  destruct w.
+  - unfold enter_leave, finish_leave, exit_cg. cbn [mid s2 set_gens]. destruct (mid s).
+    + eapply inv2_leave_cur; eauto; cbn; congruence.
+    + eapply inv2_ext with (s := set_gph GExited s2); try (cbn; reflexivity).
+      eapply inv2_leave_cur; eauto; cbn; congruence.
+  - eapply inv2_leave_cur; eauto; cbn; congruence.
+Qed.
+
 Ltac rw_ph :=
   repeat match goal with
   | H : rph ?s = _ |- _ => is_var s; rewrite H in *; revert H
   | H : gph ?s = _ |- _ => is_var s; rewrite H in *; revert H
   end; intros.
+Ltac j_close3 J2 J3 :=
+  try (match goal with H : r_after _ = true |- _ => specialize (J3 H); congruence end);
+  try (match goal with H : r_closing _ = true |- _ => specialize (J2 H); congruence end).
 Ltac j_close J0 J1 :=
   eauto; try discriminate; try congruence;
   try (match goal with H : c_group _ = false |- _ => destruct (J0 H) as (?&?&?&?&?); congruence end);
   try (match goal with H : rdone _ = true |- _ => specialize (J1 H); congruence end);
   try lia.
 
+Ltac fn_upd I := eapply inv2_fn_upd; [exact I | eassumption | apply nexit_false; congruence | cbn; reflexivity ..].
+Ltac ext I := eapply inv2_ext; [exact I | cbn; reflexivity ..].
 Lemma inv2_step : forall s l s', inv2 s -> step s l = Some s' -> inv2 s'.
 Proof.
   intros s l s' I St.
-  assert (Cfg := cfg_step _ _ _ St).
   destruct l;
   try solve [
     step_inv St; unf; try rewrite reply_all_calls_only;
-    repeat match goal with |- context [if closed ?s then _ else _] => destruct (closed s) eqn:? end;
-    destruct I as [J0 J1 J2 J3 J4 J5 J6 J7 J8]; rw_ph; split; intros; unfold gen_past, gen_done in *; cbn in *;
-    j_close J0 J1 ].
-  all: match goal with St : step _ ?l = _ |- _ => idtac l end.
-Abort.
+    destr_goal;
+    destruct I as [J0 J1 J2 J3 J4 J5 J6 J7 J8 J9]; rw_ph; split; intros; rw_ph; unfold gen_past, gen_done in *; cbn in *;
+    j_close J0 J1; j_close3 J2 J3 ].
+  { step_inv St. apply inv2_start_fn; auto; rewrite ?Heqr; cbn; auto. }
+  { step_inv St. apply inv2_start_fn; auto; rewrite ?Heqr; cbn; auto. }
+  { step_inv St. destruct I as [J0 J1 J2 J3 J4 J5 J6 J7 J8 J9]. split; unfold gen_past, gen_done in *; cbn; rewrite ?Heqg, ?Heqr in *; cbn in *; auto; try discriminate.
+        - intros G. destruct (J0 G) as (A & B & _). congruence.
+        - intros G. specialize (J1 G). congruence. }
+  { step_inv St; try solve [ unf; destr_goal;
+          destruct I as [J0 J1 J2 J3 J4 J5 J6 J7 J8 J9]; rw_ph; split; intros; rw_ph; unfold gen_past, gen_done in *; cbn in *;
+          j_close J0 J1; j_close3 J2 J3 ].
+        destruct I as [J0 J1 J2 J3 J4 J5 J6 J7 J8 J9]. split; unfold gen_past, gen_done; cbn; rewrite ?app_length; cbn.
+        - intros G. destruct (J0 G) as (A & _). congruence.
+        - auto.
+        - auto.
+        - intros G. specialize (J3 G). congruence.
+        - intros k H. inversion H; subst. lia.
+        - intros k H. specialize (J5 k H). lia.
+        - intros i f H. apply nth_app_cases in H as [H|[_ H]]; [specialize (J6 _ _ H); lia| subst; cbn; lia].
+        - intros j g H. apply nth_app_cases in H as [H|[E H]].
+          + destruct (J7 j g H) as [A|(A & B & C)]; [rewrite Heqg in A; discriminate|]. right. split; auto.
+            apply past_app; auto. unfold acc_of. cbn. apply nth_some_lt in H.
+            destruct (Nat.eqb_spec (length (gens s)) j); [lia|reflexivity].
+          + left. subst. reflexivity.
+        - intros i f H Ha. apply nth_app_cases in H as [H|[_ H]].
+          + specialize (J8 _ _ H Ha). pose proof (J6 _ _ H). unfold gen_done in J8. rewrite nth_error_app1 by auto. exact J8.
+          + subst. discriminate.
+        - intros k w H. discriminate. }
+  { step_inv St; pose proof (j_cur _ I k ltac:(rewrite Heqg; reflexivity)) as Hk;
+        (destruct (nth_error (gens s) k) as [g|] eqn:Eg; [|apply nth_error_None in Eg; lia]);
+        assert (I1 : inv2 (end_gen k s)) by
+          (unfold end_gen; rewrite Eg; eapply inv2_gen_upd; try exact I; try exact Eg; try (cbn; reflexivity); cbn; auto);
+        assert (Eg1 : nth_error (gens (end_gen k s)) k = Some (mkGen (g_mid g) true (g_conn g)))
+          by (unfold end_gen; rewrite Eg; cbn; eapply nth_upd_eq; eauto);
+        assert (Hc1 : gph (end_gen k s) = gph s) by (unfold end_gen; rewrite Eg; reflexivity).
+        - eapply inv2_after_close; eauto. rewrite Hc1, Heqg. reflexivity.
+        - apply inv2_gph; auto; rewrite ?Hc1, ?Heqg; cbn; try congruence.
+          intros k0 w0 E. inversion E; subst. unfold gen_done. rewrite Eg1. reflexivity. }
+  { step_inv St. pose proof (j_cur _ I k ltac:(rewrite Heqg; reflexivity)) as Hk.
+        destruct (nth_error (gens s) k) as [g|] eqn:Eg; [|apply nth_error_None in Eg; lia].
+        eapply inv2_after_close; eauto; [rewrite Heqg; reflexivity|].
+        pose proof (j_cw _ I _ _ Heqg) as D. unfold gen_done in D. rewrite Eg in D. exact D. }
+  { step_inv St; unf; try rewrite reply_all_calls_only; first [fn_upd I | ext I]. }
+  { step_inv St; unf; try rewrite reply_all_calls_only; first [fn_upd I | ext I]. }
+  { step_inv St. unfold end_gen. cbn [gens set_fn set_fns].
+        assert (I' : inv2 (set_fn f f0 NExit s)) by (unfold set_fn; fn_upd I).
+        destruct (nth_error (gens s) (n_gen f0)) eqn:Eg; [|exact I'].
+        eapply inv2_gen_upd; try exact I'; try (cbn; exact Eg); try (cbn; reflexivity); cbn; auto. }
+  { step_inv St; unf; try rewrite reply_all_calls_only; first [fn_upd I | ext I]. }
+  { step_inv St; unf; try rewrite reply_all_calls_only; first [fn_upd I | ext I]. }
+  { step_inv St; unf; try rewrite reply_all_calls_only; first [fn_upd I | ext I]. }
+  { step_inv St; unf; try rewrite reply_all_calls_only; first [fn_upd I | ext I]. }
+  { step_inv St; unf; try rewrite reply_all_calls_only; first [fn_upd I | ext I]. }
+  { step_inv St; unf; try rewrite reply_all_calls_only; first [fn_upd I | ext I]. }
+  { step_inv St; unf; try rewrite reply_all_calls_only; first [fn_upd I | ext I]. }
+Qed.
